@@ -92,7 +92,7 @@ PLANS = {
         "budget_s": {"quick": 55, "thorough": 1200},
         "quick_first": 120, "quick_sample": 30,
         "enum_seeds": {"quick": 4, "thorough": 60},
-        "enum_alloc": [{'scenario': 'c20_sp', 'params': {'proto': 0, 'tr': 0}}, {'scenario': 'c20_sp', 'params': {'proto': 0, 'tr': 1}}, {'scenario': 'c20_sp', 'params': {'proto': 0, 'tr': 2}}, {'scenario': 'c20_sp', 'params': {'proto': 0, 'tr': 3}}, {'scenario': 'c20_sp', 'params': {'proto': 1, 'tr': 0}}, {'scenario': 'c20_sp', 'params': {'proto': 1, 'tr': 1}}, {'scenario': 'c20_sp', 'params': {'proto': 1, 'tr': 2}}, {'scenario': 'c20_sp', 'params': {'proto': 1, 'tr': 3}}, {'scenario': 'c20_sp', 'params': {'proto': 2, 'tr': 0}}, {'scenario': 'c20_sp', 'params': {'proto': 2, 'tr': 1}}, {'scenario': 'c20_sp', 'params': {'proto': 2, 'tr': 2}}, {'scenario': 'c20_sp', 'params': {'proto': 2, 'tr': 3}}, {'scenario': 'c20_sp', 'params': {'proto': 3, 'tr': 0}}, {'scenario': 'c20_sp', 'params': {'proto': 3, 'tr': 1}}, {'scenario': 'c20_sp', 'params': {'proto': 3, 'tr': 2}}, {'scenario': 'c20_sp', 'params': {'proto': 3, 'tr': 3}}, {'scenario': 'c20_sp', 'params': {'proto': 4, 'tr': 0}}, {'scenario': 'c20_sp', 'params': {'proto': 4, 'tr': 1}}, {'scenario': 'c20_sp', 'params': {'proto': 4, 'tr': 2}}, {'scenario': 'c20_sp', 'params': {'proto': 4, 'tr': 3}}, {'scenario': 'c20_sp', 'params': {'proto': 5, 'tr': 0}}, {'scenario': 'c20_sp', 'params': {'proto': 5, 'tr': 1}}, {'scenario': 'c20_sp', 'params': {'proto': 5, 'tr': 2}}, {'scenario': 'c20_sp', 'params': {'proto': 5, 'tr': 3}}, {'scenario': 'c20_sp', 'params': {'proto': 6, 'tr': 0}}, {'scenario': 'c20_sp', 'params': {'proto': 6, 'tr': 1}}, {'scenario': 'c20_sp', 'params': {'proto': 6, 'tr': 2}}, {'scenario': 'c20_sp', 'params': {'proto': 6, 'tr': 3}}, {'scenario': 'c20_sp', 'params': {'proto': 0, 'tr': 0, 'longurl': 1}}, {'scenario': 'c20_sp', 'params': {'proto': 1, 'tr': 3, 'longurl': 1}}, {'scenario': 'c20_sp', 'params': {'proto': 1, 'tr': 0, 'udp': 1}}, {'scenario': 'c20_sp', 'params': {'proto': 3, 'tr': 0, 'udp': 1}}, {'scenario': 'c20_sp', 'params': {'proto': 0, 'tr': 0, 'udp': 1}}, {'scenario': 'c20_init', 'params': {'no_init': 1, 'cycles': 0}}, {'scenario': 'c20_init', 'params': {'no_init': 1, 'cycles': 2}}, {'scenario': 'c20_init', 'params': {'no_init': 1, 'cycles': 0, 'expires': 3, 'pollers_n': 2}}, {'scenario': 'c20_device', 'params': {}}, {'scenario': 'c20_http', 'params': {'errpage': 0}}, {'scenario': 'c20_http', 'params': {'errpage': 1}}],
+        "enum_alloc": [{'scenario': 'c20_sp', 'params': {'proto': 0, 'tr': 0}}, {'scenario': 'c20_sp', 'params': {'proto': 0, 'tr': 1}}, {'scenario': 'c20_sp', 'params': {'proto': 0, 'tr': 2}}, {'scenario': 'c20_sp', 'params': {'proto': 0, 'tr': 3}}, {'scenario': 'c20_sp', 'params': {'proto': 1, 'tr': 0}}, {'scenario': 'c20_sp', 'params': {'proto': 1, 'tr': 1}}, {'scenario': 'c20_sp', 'params': {'proto': 1, 'tr': 2}}, {'scenario': 'c20_sp', 'params': {'proto': 1, 'tr': 3}}, {'scenario': 'c20_sp', 'params': {'proto': 2, 'tr': 0}}, {'scenario': 'c20_sp', 'params': {'proto': 2, 'tr': 1}}, {'scenario': 'c20_sp', 'params': {'proto': 2, 'tr': 2}}, {'scenario': 'c20_sp', 'params': {'proto': 2, 'tr': 3}}, {'scenario': 'c20_sp', 'params': {'proto': 3, 'tr': 0}}, {'scenario': 'c20_sp', 'params': {'proto': 3, 'tr': 1}}, {'scenario': 'c20_sp', 'params': {'proto': 3, 'tr': 2}}, {'scenario': 'c20_sp', 'params': {'proto': 3, 'tr': 3}}, {'scenario': 'c20_sp', 'params': {'proto': 4, 'tr': 0}}, {'scenario': 'c20_sp', 'params': {'proto': 4, 'tr': 1}}, {'scenario': 'c20_sp', 'params': {'proto': 4, 'tr': 2}}, {'scenario': 'c20_sp', 'params': {'proto': 4, 'tr': 3}}, {'scenario': 'c20_sp', 'params': {'proto': 5, 'tr': 0}}, {'scenario': 'c20_sp', 'params': {'proto': 5, 'tr': 1}}, {'scenario': 'c20_sp', 'params': {'proto': 5, 'tr': 2}}, {'scenario': 'c20_sp', 'params': {'proto': 5, 'tr': 3}}, {'scenario': 'c20_sp', 'params': {'proto': 6, 'tr': 0}}, {'scenario': 'c20_sp', 'params': {'proto': 6, 'tr': 1}}, {'scenario': 'c20_sp', 'params': {'proto': 6, 'tr': 2}}, {'scenario': 'c20_sp', 'params': {'proto': 6, 'tr': 3}}, {'scenario': 'c20_sp', 'params': {'proto': 0, 'tr': 0, 'longurl': 1}}, {'scenario': 'c20_sp', 'params': {'proto': 1, 'tr': 3, 'longurl': 1}}, {'scenario': 'c20_sp', 'params': {'proto': 1, 'tr': 3, 'wshdr': 1}}, {'scenario': 'c20_sp', 'params': {'proto': 0, 'tr': 3, 'wshdr': 1}}, {'scenario': 'c20_sp', 'params': {'proto': 1, 'tr': 0, 'udp': 1}}, {'scenario': 'c20_sp', 'params': {'proto': 3, 'tr': 0, 'udp': 1}}, {'scenario': 'c20_sp', 'params': {'proto': 0, 'tr': 0, 'udp': 1}}, {'scenario': 'c20_init', 'params': {'no_init': 1, 'cycles': 0}}, {'scenario': 'c20_init', 'params': {'no_init': 1, 'cycles': 2}}, {'scenario': 'c20_init', 'params': {'no_init': 1, 'cycles': 0, 'expires': 3, 'pollers_n': 2}}, {'scenario': 'c20_device', 'params': {}}, {'scenario': 'c20_http', 'params': {'errpage': 0}}, {'scenario': 'c20_http', 'params': {'errpage': 1}}],
         "scenarios": [],
         "assumptions": ["enumeration is exhaustive over k for each (program, seed) but covers one schedule per seed",
                         "the allocator seam is nng_init_params.{malloc,calloc,free}_fn; every nng allocation goes through it"],
@@ -111,6 +111,7 @@ PLANS = {
             S("c18_ids", 400, 12000),
             S("c18_idmap", 500, 15000, label="model"),
             S("c18_idmap", 300, 9000, label="allocfault", idfault=1),
+            S("c18_ctxrace", 400, 12000),   # contexts opened and closed by several threads (identifier table under the lockset monitor)
             S("c18_parked", 800, 24000),   # FIFO across parked asynchronous senders (scenarios/c18b_parked.cc)
         ],
         "assumptions": [
